@@ -256,7 +256,44 @@ where
     }
     let vi: Vec<G::NodeId> = Topo::new(g).iter(g).take(cap).collect();
     let via = seq_abs(cx, g, &back, &vi, "Topo.iter")?;
-    check_set_once(cx, abs.n, &via, &want, "Topo.iter")
+    check_set_once(cx, abs.n, &via, &want, "Topo.iter")?;
+    // Topo::with_initials (initials with incoming edges are ignored; duplicates allowed): every node once, every
+    // non-initial node only after all of its predecessors, every source among the initials is emitted
+    if abs.n > 0 {
+        let k = 1 + (abs.m() + abs.n) % 3;
+        let initials: Vec<usize> = (0..k).map(|i| (i * 5 + abs.m()) % abs.n).chain(std::iter::once(abs.m() % abs.n)).collect();
+        let init_ids: Vec<G::NodeId> = initials.iter().map(|&a| ids[a]).collect();
+        let mut t = Topo::with_initials(g, init_ids);
+        let mut seq = vec![];
+        while let Some(y) = t.next(g) {
+            seq.push(y);
+            cx.ensure(seq.len() <= cap, "Topo::with_initials:overrun", || "emitted more nodes than the graph has".into())?;
+        }
+        let sa = seq_abs(cx, g, &back, &seq, "Topo::with_initials")?;
+        let mut pos = vec![usize::MAX; abs.n];
+        for (i, &v) in sa.iter().enumerate() {
+            cx.ensure(pos[v] == usize::MAX, "Topo::with_initials:node-twice", || format!("node {} emitted twice in {:?} (initials {:?})", v, sa, initials))?;
+            pos[v] = i;
+        }
+        let indeg0: Vec<bool> = (0..abs.n).map(|v| !abs.edges.iter().any(|e| e.1 == v)).collect();
+        for &a in &initials {
+            if indeg0[a] {
+                cx.ensure(pos[a] != usize::MAX, "Topo::with_initials:source-initial-not-emitted", || format!("initial {} has no incoming edge but was not emitted", a))?;
+            }
+        }
+        for v in 0..abs.n {
+            if pos[v] != usize::MAX && !(initials.contains(&v) && indeg0[v]) {
+                for &(u, w, _) in &abs.edges {
+                    if w == v {
+                        cx.ensure(pos[u] != usize::MAX && pos[u] < pos[v], "Topo::with_initials:predecessor-first", || {
+                            format!("node {} emitted at {} but its predecessor {} at {:?} (initials {:?})", v, pos[v], u, pos[u], initials)
+                        })?;
+                    }
+                }
+            }
+        }
+    }
+    Ok(())
 }
 
 // ------------------------------------------------------------------ depth_first_search trace
